@@ -919,6 +919,25 @@ func runRestoreCase(rng *rand.Rand, out *bufio.Writer, st *stats, caseNo int) {
 		err := l.r.Restore(meta, strings.NewReader(string(blob)), 2*time.Second)
 		h.rec("R %d %d %d %d %d %d %d %s", l.id, l.life, t0, h.now(), b2i(err == nil), metaIdx, last, intsTok(data))
 		st.Hist[fmt.Sprintf("restore-ok=%v", err == nil)]++
+		if rng.Intn(2) == 0 {
+			// a write right behind the restore, then the leader is cut off while the followers are
+			// still installing the snapshot: whatever it acknowledged must survive its deposition
+			c.apply(l, "a")
+			time.Sleep(time.Duration(rng.Intn(40)) * time.Millisecond)
+			c.mu.Lock()
+			for o := 1; o <= nsrv; o++ {
+				if o != l.id {
+					c.blocked[[2]int{l.id, o}] = true
+					c.blocked[[2]int{o, l.id}] = true
+				}
+			}
+			c.mu.Unlock()
+			time.Sleep(600 * time.Millisecond)
+			c.mu.Lock()
+			c.blocked = map[[2]int]bool{}
+			c.mu.Unlock()
+			st.Hist["leader-cut-off-right-after-restore"]++
+		}
 		for k, m := 0, 1+rng.Intn(4); k < m; k++ {
 			if l2 := c.leader(); l2 != nil {
 				c.apply(l2, "a")
